@@ -297,14 +297,21 @@ def _get_schema_or_none(
 
 
 def _default(f_type: Type, f_value: Any, config_cls: Type[BaseConfig]) -> Any:
+    if f_value is None:
+        return None
+
+    # The owner's Config is inherited for its serialization strategies. The
+    # field is required and its value is not None, so that omit_default and
+    # omit_none (of the Config or its dialect) can't drop it, and it's taken
+    # by position because an alias may rename it.
     @dataclass
     class CC(DataClassJSONMixin):
-        x: f_type = f_value  # type: ignore
+        x: f_type  # type: ignore
 
         class Config(config_cls):  # type: ignore
             pass
 
-    return CC(f_value).to_dict()["x"]
+    return next(iter(CC(f_value).to_dict().values()))
 
 
 Registry = InstanceSchemaCreatorRegistry()
